@@ -143,7 +143,7 @@ def main():
         "not_applicable": na,
         "notes": "Exit codes: 0 held, 1 violation (VIOLATION line), 2 machinery failure. known_findings.json lists recorded findings and repaired defects. "
                  "`./check drift` (not registered for any property, never alarms) covers behaviour outside the listed properties: composition of "
-                 "Scheduler and World, deprecated aliases as refinements, further public API. seeded/ holds 520 independently produced breaking "
+                 "Scheduler and World, deprecated aliases as refinements, further public API. seeded/ holds 540 independently produced breaking "
                  "changes with their demonstrations and the outcome of the checks on each (tools/seedcheck.py).",
     }
     with open(os.path.join(VERIF, "MANIFEST.json"), "w") as f:
